@@ -235,7 +235,7 @@ func run(c *vkit.Collector, rng *vkit.Rng, budget int) {
 	counts := []struct {
 		kind string
 		n    int
-	}{{"index", 160}, {"loop", 90}, {"polygon", 30}, {"equery", 70}}
+	}{{"index", 160}, {"loop", 90}, {"polygon", 45}, {"equery", 70}}
 	var jobs []job
 	id := 0
 	for _, k := range counts {
